@@ -2,5 +2,4 @@
 namespace hv {
     int run_collections(const Scenario &) { throw std::logic_error("collections mode not built"); }
     int run_higher_order(const Scenario &) { throw std::logic_error("higher_order mode not built"); }
-    int run_threads(const Scenario &) { throw std::logic_error("threads mode not built"); }
 }
